@@ -310,8 +310,13 @@ class BaseEvent(BaseModel, Generic[T_EventResultType]):
                             try:
                                 if bus.event_queue.qsize() > 0:
                                     event = bus.event_queue.get_nowait()
-                                    await bus.process_event(event)
-                                    bus.event_queue.task_done()
+                                    try:
+                                        await bus.process_event(event)
+                                    finally:
+                                        # account for the queue slot even if this handler is cancelled (timeout)
+                                        # while it is processing the event inline, otherwise queue.join() and
+                                        # wait_until_idle() never return
+                                        bus.event_queue.task_done()
                                     processed_any = True
                                     # Check if the event we're waiting for is now complete
                                     if self.event_completed_signal.is_set():
@@ -755,6 +760,11 @@ class BaseEvent(BaseModel, Generic[T_EventResultType]):
                     # print('CANCELLING CHILD HANDLER', result, 'due to', error)
                     result.update(error=error)
             child_event.event_cancel_pending_child_processing(error)
+            # a child whose processing was interrupted will not be looked at again: now that its remaining handler
+            # results are terminal, let it (and its waiters) reach completion. A child that has not been picked up
+            # yet (no results) is still queued and completes when its bus processes it.
+            if child_event.event_results:
+                child_event.event_mark_complete_if_all_handlers_completed()
 
     def event_log_safe_summary(self) -> dict[str, Any]:
         """only event metadata without contents, avoid potentially sensitive event contents in logs"""
